@@ -447,6 +447,60 @@ macro_rules! for_ns {
     ([$($n:ty),*], $N:ident => $body:block) => { $( { type $N = $n; $body } )* };
 }
 
+/// C05 on the deserialisation error paths: `c` elements are offered, element `fail_at` fails to parse (or the
+/// count is wrong), and the destructor of already-read element `e` panics once while the partly built array
+/// is torn down.  Oracle of C05: nothing dropped twice, nothing observed after its drop (leaks allowed).
+fn teardown_fault<N: ArrayLength>(plan: Plan, e: Option<u32>) -> Result<(CaseInfo, u32), String> {
+    PRODUCED.with(|p| p.borrow_mut().clear());
+    let stats = RefCell::new(Stats::default());
+    ledger::set_drop_bomb(e);
+    let r = catch(std::panic::AssertUnwindSafe(|| GA::<El, N>::deserialize(ScriptDe { plan, stats: &stats })));
+    let fired_inside = ledger::fired() > 0;
+    let made = ledger::created();
+    match r {
+        Ok(Ok(a)) => {
+            // accepted input: the array is observed, then dropped (the destructor may panic now)
+            let _ = a.iter().map(|x| x.id()).collect::<Vec<_>>();
+            let _ = catch(std::panic::AssertUnwindSafe(|| drop(a)));
+        }
+        Ok(Err(_)) => {}
+        Err(PanicKind::Injected(_)) => {}
+        Err(PanicKind::Other(m)) => return Err(format!("unexpected panic: {m}")),
+    }
+    ledger::set_drop_bomb(None);
+    let leaked = ledger::check_no_double(&[])?;
+    Ok((CaseInfo::new(fired_inside, format!("{}:{}", if fired_inside { "panicked-inside-deserialize" } else { "no-panic-inside" }, if leaked > 0 { "leaks" } else { "no-leak" })), made))
+}
+
+pub fn run_c05(ctx: &mut Ctx) {
+    for_ns!([U0, U1, U2, U3, U4, U5, U6, U8, U16], N => {
+        let n = N::USIZE;
+        for c in 0..=n + 2 {
+            for &up in &[Up::None, Up::SaysN] {
+                let mut fails: Vec<Option<usize>> = vec![None];
+                fails.extend((0..c.min(n)).map(Some));
+                for fail_at in fails {
+                    let plan = Plan { n, c, up, later_truthful: false, fail_at };
+                    if n == 0 && c > 0 && matches!(up, Up::SaysN) {
+                        continue;
+                    }
+                    let d = format!("C05;serde-teardown;N={n};c={c};up={up:?};fail={}", fail_at.map_or("-".to_string(), |k| k.to_string()));
+                    // the fault-free run tells how many elements get created: each is a candidate
+                    elems::reset_all();
+                    let made = match catch(|| teardown_fault::<N>(plan, None)) {
+                        Ok(Ok((_, m))) => m,
+                        _ => 0,
+                    };
+                    ctx.case(&format!("{d};e=-"), || teardown_fault::<N>(plan, None).map(|x| x.0));
+                    for e in 0..made {
+                        ctx.case(&format!("{d};e={e}"), || teardown_fault::<N>(plan, Some(e)).map(|x| x.0));
+                    }
+                }
+            }
+        }
+    });
+}
+
 pub fn run(ctx: &mut Ctx) {
     for_ns!([U0, U1, U2, U3, U4, U5, U6, U7, U8, U16, U33], N => {
         let n = N::USIZE;
